@@ -1,4 +1,5 @@
 import Proofs.DConnect
+import Proofs.FrameRead
 import Proofs.Tie.Decode
 /-!
 # C03 — every valid MQTT v5.0 frame is accepted and decoded to the values it carries
@@ -44,6 +45,35 @@ theorem C03_accepts_valid (sp : SPacket) (h : sp.Legal) (r : Reader) (rest : Byt
   rw [this, purePacket_frame sp.firstByte sp.body rest h.2] at hp
   simp only [Prod.mk.injEq] at hp
   exact ⟨q, by rw [hp.1, hq], hk, hv, hp.2⟩
+
+/-- **a whole session**: a stream made of any number of valid frames — each the `unparse` of a legal
+abstract packet — followed by anything is accepted frame by frame: as many `ReadPacket` calls
+return, in order and without error, packets of the matching types whose accessors report the
+specification's reading of the respective frame, and leave what follows unread. -/
+theorem C03_session : ∀ (sps : List SPacket) (r : Reader) (tail : Bytes), (∀ sp ∈ sps, sp.Legal) →
+    r.data = sps.flatMap (·.unparse) ++ tail →
+    ∃ qs : List Packet, (readAll sps.length r).1 = qs.map RP.pkt
+      ∧ qs.map (fun q => (q.kind, q.view)) = sps.map (fun sp => (sp.kind, sp.view))
+      ∧ (readAll sps.length r).2.data = tail := by
+  intro sps
+  induction sps with
+  | nil => intro r tail _ hd; exact ⟨[], rfl, rfl, by simpa [readAll] using hd⟩
+  | cons sp sps ih =>
+    intro r tail hall hd
+    obtain ⟨q, h1, hk, hv, hrest⟩ := C03_accepts_valid sp (hall sp (by simp)) r
+      (sps.flatMap (·.unparse) ++ tail) (by rw [hd]; simp)
+    obtain ⟨qs, h2, h3, h4⟩ := ih (readPacket r).2 tail (fun x hx => hall x (by simp [hx])) hrest
+    refine ⟨q :: qs, ?_, ?_, ?_⟩
+    · simp only [List.length_cons, readAll, List.map_cons]; rw [h1, h2]
+    · simp only [List.map_cons]; rw [h3, hk, hv]
+    · simpa only [List.length_cons, readAll] using h4
+
+/-- non-vacuity of `C03_session`'s premise: a two-frame session -/
+example : ∀ sp ∈ [SPacket.ack 4 7 .reason 0x10 [], SPacket.connack true 0 [⟨0x21, .u16 0⟩, ⟨0x25, .bool false⟩]],
+    sp.Legal := by
+  intro sp h
+  simp only [List.mem_cons, List.not_mem_nil, or_false] at h
+  rcases h with rfl | rfl <;> constructor <;> decide
 
 /-- non-vacuity: a DISCONNECT carrying a reason string and a user property in "foreign" order,
 a PUBACK of remaining length 3, a CONNACK with an explicit zero-valued property -/
